@@ -33,7 +33,7 @@ func receiverWrites(p *Program, ms *mutSummary, fn *ssa.Function, pi int) []ssa.
 		if allocBase(w.Target) != nil {
 			continue
 		}
-		if deepRoots(p, w.Target)[par] {
+		if deepRootsAddr(p, w.Target)[par] {
 			out = append(out, w.In)
 		}
 	}
